@@ -44,7 +44,26 @@ def gen_reduced_tree(rng):
                                     ws=[" ", "  ", "\n", "\t", "\n  "])
     t = trees.gen_tree(rng, max_depth=3, max_kids=5, nss=["", "", "urn:x"], p_text=0.5, p_comment=0.1, p_pi=0.06,
                        text=text, space_attr=0.15, inherit_ns=0.8)
-    return c07.spec_reduce(trees.merge_text(t))
+    t = c07.spec_reduce(trees.merge_text(t))
+    if rng.random() < 0.3:
+        multiline_markup(rng, t)
+    return t
+
+
+def multiline_markup(rng, t):
+    """comments / PIs spanning lines and preserved text ending in a newline: the column after them is small"""
+    if t[0] != "t":
+        return
+    pres = any(a[0] == trees.XML_NS and a[1] == "space" and a[2] == "preserve" for a in t[3])
+    for i, k in enumerate(t[4]):
+        if k[0] == "c" and rng.random() < 0.6:
+            t[4][i] = ["c", rng.choice(["a\n", "note\n ", "x\n  y", "\n"])]
+        elif k[0] == "p" and rng.random() < 0.6:
+            t[4][i] = ["p", k[1], rng.choice(["a\nb", "x=1\n"])]
+        elif k[0] == "x" and pres and rng.random() < 0.6:
+            t[4][i] = ["x", k[1] + rng.choice(["\n", "\n ", "\n  "])]
+        else:
+            multiline_markup(rng, k)
 
 
 def subtrees(tree, path=()):
